@@ -298,7 +298,7 @@ pub fn run_session(s: &Session, ctx: &mut Ctx) -> Result<Transcript, Violation> 
                         // until the final FileInfo (sent twice with the same count once parsing finished) or budget
                         let mut rounds = 0;
                         // (budgets grow with the length of the log: long logs arrive in many partial frames)
-                        while !(last_fileinfo >= total && fileinfo_repeats >= 1) && rounds < 400 + total as usize / 10 {
+                        while !(last_fileinfo >= total && fileinfo_repeats >= 1) && rounds < 400 + if total > 1000 { total as usize * 2 } else { 0 } {
                             let _ = pump(&mut ws, &mut ev, 50, false, &mut last_fileinfo, &mut fileinfo_repeats);
                             rounds += 1;
                         }
